@@ -123,6 +123,7 @@ pub fn members_of(nodes: &[(u8, String)]) -> Vec<ClusterMember> {
 }
 
 pub async fn start_node(id: u8, dc: &str, store: ModelStore, members: &[ClusterMember], repair: Duration) -> NodeH {
+    let t_begin = tokio::time::Instant::now();
     let addr = addr_of(id);
     let cfg = ConnectionConfig::new(addr, addr, Vec::<String>::new());
     let node = DatacakeNodeBuilder::<DCAwareSelector>::new(id, cfg)
@@ -134,10 +135,18 @@ pub async fn start_node(id: u8, dc: &str, store: ModelStore, members: &[ClusterM
     tokio::time::sleep(Duration::from_millis(10)).await;
     node.verif_set_members(members.to_vec());
     tokio::time::sleep(Duration::from_millis(10)).await;
+    let dbg = std::env::var_os("VP_DEBUG").is_some();
+    let t_dbg = tokio::time::Instant::now();
+    if dbg {
+        eprintln!("DEBUG start_node {id}: creating the extension {:?} after start_node began", t_begin.elapsed());
+    }
     let ec = node
         .add_extension(EventuallyConsistentStoreExtension::new(store.clone()).with_repair_interval(repair))
         .await
         .expect("extension");
+    if dbg {
+        eprintln!("DEBUG start_node {id}: extension ready after {:?}", t_dbg.elapsed());
+    }
     let handle = ec.handle();
     NodeH { id, addr, dc: dc.to_string(), node, store, ec, handle }
 }
